@@ -302,6 +302,51 @@ pub fn run(kind: &str, sc: &J) -> J {
                 Err(e) => json!({"outcome": "err", "error": e.to_string(), "fields": fields}),
             }
         }
+        "stores" => {
+            // history of contains / try_get / get calls on the three partial stores built over the same in-memory source
+            use liquid_core::partials::{EagerCompiler, InMemorySource, LazyCompiler, OnDemandCompiler, PartialCompiler};
+            let mk_src = || {
+                let mut src = InMemorySource::new();
+                if let Some(m) = sc.get("partials").and_then(|p| p.as_object()) {
+                    for (k, v) in m { src.add(k.clone(), v.as_str().unwrap_or("").to_owned()); }
+                }
+                src
+            };
+            let lang = std::sync::Arc::new(liquid_core::Language::empty());
+            let hist: Vec<(String, String)> = sc.get("history").and_then(|h| h.as_array()).map(|a| a.iter().map(|c| (c[0].as_str().unwrap_or("").to_owned(), c[1].as_str().unwrap_or("").to_owned())).collect()).unwrap_or_default();
+            let mut all: Vec<(String, Vec<String>)> = Vec::new();
+            for pol in ["eager", "lazy", "ondemand"] {
+                let built = std::panic::catch_unwind(std::panic::AssertUnwindSafe(|| match pol {
+                    "eager" => EagerCompiler::new(mk_src()).compile(lang.clone()),
+                    "lazy" => LazyCompiler::new(mk_src()).compile(lang.clone()),
+                    _ => OnDemandCompiler::new(mk_src()).compile(lang.clone()),
+                }));
+                let store = match built {
+                    Ok(Ok(s)) => s,
+                    Ok(Err(e)) => return json!({"outcome": "violation", "what": format!("{}: building the store failed: {}", pol, e)}),
+                    Err(_) => return json!({"outcome": "violation", "what": format!("{}: building the store panicked", pol)}),
+                };
+                let mut answers = Vec::new();
+                for (m, n) in &hist {
+                    let r = std::panic::catch_unwind(std::panic::AssertUnwindSafe(|| match m.as_str() {
+                        "get" => if store.get(n).is_ok() { "ok".to_owned() } else { "err".to_owned() },
+                        "try_get" => if store.try_get(n).is_some() { "some".to_owned() } else { "none".to_owned() },
+                        _ => store.contains(n).to_string(),
+                    }));
+                    match r {
+                        Ok(a) => answers.push(a),
+                        Err(_) => return json!({"outcome": "violation", "what": format!("{}: {}({}) panicked", pol, m, n)}),
+                    }
+                }
+                all.push((pol.to_owned(), answers));
+            }
+            let expected: Vec<String> = sc.get("expected").and_then(|h| h.as_array()).map(|a| a.iter().map(|x| x.as_str().unwrap_or("").to_owned()).collect()).unwrap_or_default();
+            for (pol, answers) in &all {
+                if answers != &all[0].1 { return json!({"outcome": "violation", "what": format!("{} answers {:?} but eager answers {:?}", pol, answers, all[0].1)}); }
+                if !expected.is_empty() && answers != &expected { return json!({"outcome": "violation", "what": format!("{} answers {:?}, expected {:?}", pol, answers, expected)}); }
+            }
+            json!({"outcome": "ok", "answers": all[0].1})
+        }
         "datetime_roundtrip" => {
             use liquid_core::model::DateTime;
             let g = |k: &str| sc.get(k).and_then(|v| v.as_i64()).unwrap_or(0);
